@@ -124,18 +124,33 @@ type pairResult struct {
 	SegCloses   []int       // Low-Latency: the writes during which the leading stream rotated its segment (VerifSnapshot after every write)
 	ParamLine   [][]paramAt // per muxer track: the canonical parameters the muxer holds, from which write on
 	Clients     []*clientRun
+	// pairs with Lag: the client attempt whose callbacks were held (-1: none), and whether it was released because the
+	// leading stream had completed Lag further segments (else: at the end of the writer)
+	LagHeldClient int
+	LagBySegments bool
 	Panic       string
 	WallMs      int64
 }
 
-// paramAt: from write [Op] on (-1: from Start) the muxer's Track.Codec holds [Params]
+// paramAt: from write [Op] on (-1: from Start) the muxer's Track.Codec holds [Params]. [Eff] is the write at which
+// the change takes effect on the stream: Op itself when the parameter sets come with a key frame, else the first
+// random access write of the track after Op (parameter sets sent ahead: the pictures up to that key frame still
+// belong to the previous set and to the segment it opened; the muxer rotates, and renews the init, at the key frame)
 type paramAt struct {
 	Op     int
+	Eff    int
 	Params string
 }
 
+// lagCtl: the data callbacks of the first client that delivers are held until the writer releases them
+type lagCtl struct {
+	held    int32 // 1 + attempt number of the client whose first callback arrived (atomic; 0: none yet)
+	release chan struct{}
+}
+
 // paramsBetween: the parameter sets in force at some moment from write lo to write hi (inclusive; the set in
-// force AT lo is the one established by the last change at or before it)
+// force AT lo is the one established by the last change at or before it, and the one before it as long as
+// that change has not taken effect, see paramAt.Eff)
 func paramsBetween(line []paramAt, lo, hi int) []string {
 	if hi < lo {
 		lo, hi = hi, lo
@@ -144,7 +159,7 @@ func paramsBetween(line []paramAt, lo, hi int) []string {
 	for i, e := range line {
 		next := 1 << 60
 		if i+1 < len(line) {
-			next = line[i+1].Op
+			next = line[i+1].Eff
 		}
 		if e.Op <= hi && next > lo { // in force during [e.Op, next)
 			out = append(out, e.Params)
@@ -216,7 +231,7 @@ func (p *pairDesc) targetURI() string {
 }
 
 // runClient attaches one client and lets it run until it ends by itself or [stop] is closed.
-func runClient(st *stub, p *pairDesc, attempt int, t0 time.Time, stop <-chan struct{}) *clientRun {
+func runClient(st *stub, p *pairDesc, attempt int, t0 time.Time, stop <-chan struct{}, lag *lagCtl) *clientRun {
 	cr := &clientRun{Attempt: attempt, AttachMs: time.Since(t0).Milliseconds()}
 	var mu sync.Mutex
 	var c *gohlslib.Client
@@ -251,6 +266,14 @@ func runClient(st *stub, p *pairDesc, attempt int, t0 time.Time, stop <-chan str
 					mu.Lock()
 					ct.Units = append(ct.Units, u)
 					mu.Unlock()
+					if lag != nil {
+						// a consumer that is too slow: no callback returns before the writer is far enough ahead
+						atomic.CompareAndSwapInt32(&lag.held, 0, int32(attempt)+1)
+						select {
+						case <-lag.release:
+						case <-stop:
+						}
+					}
 				}
 				switch tr.Codec.(type) {
 				case *codecs.H264, *codecs.H265:
@@ -360,7 +383,7 @@ func runPair(p *pairDesc) (res *pairResult) {
 	res.ParamLine = make([][]paramAt, len(h.Tracks))
 	for i, t := range h.Tracks {
 		_, cur := codecKindParams(mkCodec(t, t.Params0))
-		res.ParamLine[i] = []paramAt{{Op: -1, Params: cur}}
+		res.ParamLine[i] = []paramAt{{Op: -1, Eff: -1, Params: cur}}
 		for k := range h.Ops {
 			a := &h.Ops[k]
 			if a.Track != i || !a.HasParams {
@@ -368,7 +391,17 @@ func runPair(p *pairDesc) (res *pairResult) {
 			}
 			if _, s := codecKindParams(mkCodecP(t, a.pset())); s != cur {
 				cur = s
-				res.ParamLine[i] = append(res.ParamLine[i], paramAt{Op: k, Params: s})
+				eff := k
+				if !a.RA {
+					eff = 1 << 60
+					for k2 := k + 1; k2 < len(h.Ops); k2++ {
+						if h.Ops[k2].Track == i && h.Ops[k2].RA {
+							eff = k2
+							break
+						}
+					}
+				}
+				res.ParamLine[i] = append(res.ParamLine[i], paramAt{Op: k, Eff: eff, Params: s})
 			}
 		}
 	}
@@ -388,6 +421,11 @@ func runPair(p *pairDesc) (res *pairResult) {
 	if h.Variant == 3 {
 		lastNextSeg = leadingNextSeg()
 	}
+	var lag *lagCtl
+	res.LagHeldClient = -1
+	if p.Lag > 0 {
+		lag = &lagCtl{release: make(chan struct{})}
+	}
 	t0 := time.Now()
 	writerDone := make(chan struct{})
 	var wmu sync.Mutex
@@ -395,6 +433,14 @@ func runPair(p *pairDesc) (res *pairResult) {
 	// writer: paced in real time by the media time of each unit
 	go func() {
 		defer close(writerDone)
+		lagBase, lagBaseSet, lagReleased := uint64(0), false, false
+		if lag != nil {
+			defer func() {
+				if !lagReleased {
+					close(lag.release)
+				}
+			}()
+		}
 		if len(h.Ops) == 0 {
 			return
 		}
@@ -438,6 +484,19 @@ func runPair(p *pairDesc) (res *pairResult) {
 				}
 			}
 			atomic.StoreInt64(&writesDone, int64(k)+1)
+			if lag != nil && !lagReleased && atomic.LoadInt32(&lag.held) != 0 {
+				// the client is held in its first callback: whatever it has downloaded or will download before it is
+				// released was listed by now (it keeps at most two segments queued behind the one it is processing)
+				n := leadingNextSeg()
+				switch {
+				case !lagBaseSet:
+					lagBase, lagBaseSet = n, true
+				case n >= lagBase+uint64(p.Lag):
+					lagReleased = true
+					res.LagBySegments = true
+					close(lag.release)
+				}
+			}
 			wmu.Lock()
 			if err != nil {
 				res.WriteErrors = append(res.WriteErrors, fmt.Sprintf("write %d: %v", k, err))
@@ -461,7 +520,7 @@ func runPair(p *pairDesc) (res *pairResult) {
 			st.mu.Lock()
 			st.client = attempt
 			st.mu.Unlock()
-			cr := runClient(st, p, attempt, t0, stop)
+			cr := runClient(st, p, attempt, t0, stop, lag)
 			res.Clients = append(res.Clients, cr)
 			delivered := 0
 			for _, t := range cr.Tracks {
@@ -498,6 +557,9 @@ func runPair(p *pairDesc) (res *pairResult) {
 	close(stop)
 	<-clientsDone
 	m.Close()
+	if lag != nil {
+		res.LagHeldClient = int(atomic.LoadInt32(&lag.held)) - 1
+	}
 
 	st.mu.Lock()
 	for _, e := range st.log {
